@@ -67,12 +67,60 @@ def metamorphic(cases, obs):
     return bad
 
 
+def rules_family(rng, n):
+    """advanced mode: SHACL rules (with one or two sh:condition shapes) run before the shapes are validated - abort_on_first says how much
+    of the VALIDATION is reported, the rules derive what they derive in a complete run"""
+    import rdflib
+    from rdflib import RDF as _RDF
+    from .c11 import RULES_TTL
+    stats, fails = {"rule_abort_cases": 0, "rule_abort_nonconforming": 0}, []
+    for _ in range(n):
+        data, nodes, lits = S.gen_typed_data(rng, n_iri=rng.randint(3, 5), n_bn=0, n_lit=1, n_triples=rng.randint(4, 10))
+        iris = [x for x in nodes if isinstance(x, rdflib.URIRef)]
+        # instances of the rule shape's class that meet the first condition (class C1), the second one (an ex:p value), both or neither
+        for x_ in iris:
+            data.add((x_, _RDF.type, S.CLASSES[0]))
+            if rng.random() < 0.5:
+                data.add((x_, _RDF.type, S.CLASSES[1]))
+            else:
+                data.remove((x_, _RDF.type, S.CLASSES[1]))
+            if rng.random() < 0.5:
+                data.remove((x_, rdflib.URIRef(S.PREDS[0]), None))
+        ttl = RULES_TTL % {"csev": "", "csev2": "", "psev": "", "rsev": "", "vsev": rng.choice(["", "sh:severity sh:Warning ;"]), "second": rng.choice([", ex:Cond2", ", ex:Cond2", ""]), "vmin": rng.choice([1, 3])}
+        sg = rdflib.Graph().parse(data=ttl, format="turtle")
+        for so in SEV:
+            full = S.run_validate(data, sg, advanced=True, **so)
+            ab = S.run_validate(data, sg, advanced=True, abort_on_first=True, **so)
+            stats["rule_abort_cases"] += 1
+            stats["rule_abort_nonconforming"] += 1 if full[0] == "ok" and not full[1] else 0
+            bad = None
+            if full[0] != ab[0]:
+                bad = "outcome kind differs: complete %r, abort_on_first %r" % (full[:2], ab[:2])
+            elif full[0] == "ok":
+                if full[1] != ab[1]:
+                    bad = "verdict differs: abort_on_first=%s complete=%s" % (ab[1], full[1])
+                elif not ab[1] and not ab[2]:
+                    bad = "non-conforming verdict without any result"
+                else:
+                    rest = list(full[2])
+                    for r in ab[2]:
+                        hit = [j for j, e in enumerate(rest) if sub_result(r, e)]
+                        if not hit:
+                            bad = "abort_on_first reported a result the complete run does not have: %r" % (S.result_key(r),)
+                            break
+                        del rest[hit[0]]
+            if bad:
+                fails.append({"what": "advanced mode with rules: " + bad, "options": so, "shapes_ttl": ttl, "data_nt": sorted(data.serialize(format="nt").split("\n"))})
+    return stats, fails, []
+
+
 def main(tier, seed, replay=None):
     rng = F.rng_for(seed, PROP)
     cases = gen_cases(rng, tier)
     return EC.standard_main(
         PROP, ["Props/C12.v"], tier, seed, cases,
-        rule="case = random nested shapes graph x data x {abort_on_first off,on} x {no waiver, allow_infos, allow_warnings}; relation on the real code: same verdict, aborted results are results of the complete run (possibly fewer details), non-conforming => at least one result; each run also compared with the model (aborted runs against the model's complete run)",
+        rule="case = random nested shapes graph x data x {abort_on_first off,on} x {no waiver, allow_infos, allow_warnings}; relation on the real code: same verdict, aborted results are results of the complete run (possibly fewer details), non-conforming => at least one result; each run also compared with the model (aborted runs against the model's complete run); plus advanced-mode runs with SHACL rules that have one or two sh:condition shapes (the rules run before validation): the same relation between the complete and the aborted run",
         what="outcome differs from the model (Props.C12)",
         metamorphic=metamorphic,
+        extra_checks=lambda: rules_family(F.rng_for(seed, PROP + "/rules"), 25 if tier == "quick" else 400),
     )
